@@ -20,7 +20,7 @@ func (c12) Budget(tier string) (int, int) {
 	if tier == "thorough" {
 		return 80000000, 420
 	}
-	return 80000, 20
+	return 80000, 90
 }
 func (c12) Rule() string {
 	return "REDUCED SCOPE (inputs sampled): state-machine runs of 1-12 Decode calls on targets that live for the whole run and therefore hold whatever earlier calls left in them (fault T-prior: never the zero value - targets start at seeded non-zero values and carry results forward). Inputs per call: a value the reader accepts, null behind every JSON-whitespace prefix, near-misses (nul, nulL, nullx, Null), wrong-type tokens, out-of-range numbers, truncations, empty input. DecodeString's scratch buffer is dirty and reused. Oracle (self-differential + target model): the corresponding Read* on a fresh copy - reader ok => same offset, target == reader's value; else input starts with JSON whitespace + the four bytes null (decided by the harness) => nil error, offset just after it, target unchanged; else error and target unchanged. Non-trivial: the target held a non-zero prior value when a failing or null call was made; distinct = distinct hashes of (function, input class, outcome, prior-class)."
